@@ -57,26 +57,42 @@ theorem mem_sadd {p q : Nat} {l : List Nat} : q ∈ sadd p l ↔ q = p ∨ q ∈
 theorem mem_srem {p q : Nat} {l : List Nat} : q ∈ srem p l ↔ q ∈ l ∧ q ≠ p := by
   simp [srem]
 
-theorem firstUnusedFrom_spec (l : List Nat) (p : Nat) :
-    firstUnusedFrom l p ∉ l ∧ p ≤ firstUnusedFrom l p := by
-  fun_induction firstUnusedFrom l p with
-  | case1 l p h ih =>
-    refine ⟨?_, by omega⟩
-    intro hm
-    have hne : firstUnusedFrom (l.erase p) (p + 1) ≠ p := by omega
-    exact ih.1 ((List.mem_erase_of_ne hne).2 hm)
-  | case2 l p h => exact ⟨h, Nat.le_refl _⟩
+theorem firstUnusedFrom_spec (f : Nat) (l : List Nat) (p : Nat) (hf : l.length ≤ f) :
+    firstUnusedFrom f l p ∉ l ∧ p ≤ firstUnusedFrom f l p := by
+  induction f generalizing l p with
+  | zero =>
+    have : l = [] := List.eq_nil_of_length_eq_zero (by omega)
+    subst this
+    simp [firstUnusedFrom]
+  | succ f ih =>
+    unfold firstUnusedFrom
+    split
+    · rename_i h
+      have hlen : (l.erase p).length ≤ f := by
+        rw [List.length_erase_of_mem h]; omega
+      have := ih (l.erase p) (p + 1) hlen
+      refine ⟨?_, by omega⟩
+      intro hm
+      have hne : firstUnusedFrom f (l.erase p) (p + 1) ≠ p := by omega
+      exact this.1 ((List.mem_erase_of_ne hne).2 hm)
+    · rename_i h
+      exact ⟨h, Nat.le_refl _⟩
 
 /-- every candidate skipped by the search is in use: the result is the *smallest* free id ≥ p -/
-theorem firstUnusedFrom_min (l : List Nat) (p q : Nat) (h1 : p ≤ q) (h2 : q < firstUnusedFrom l p) :
-    q ∈ l := by
-  fun_induction firstUnusedFrom l p with
-  | case1 l p h ih =>
-    by_cases hq : q = p
-    · subst hq; exact h
-    · exact List.mem_of_mem_erase (ih (by omega) h2)
-  | case2 l p h => omega
+theorem firstUnusedFrom_min (f : Nat) (l : List Nat) (p q : Nat) (h1 : p ≤ q)
+    (h2 : q < firstUnusedFrom f l p) : q ∈ l := by
+  induction f generalizing l p with
+  | zero => simp [firstUnusedFrom] at h2; omega
+  | succ f ih =>
+    unfold firstUnusedFrom at h2
+    split at h2
+    · rename_i h
+      by_cases hq : q = p
+      · subst hq; exact h
+      · exact List.mem_of_mem_erase (ih (l.erase p) (p + 1) (by omega) h2)
+    · omega
 
-theorem firstUnused_not_mem (l : List Nat) : firstUnused l ∉ l := (firstUnusedFrom_spec l 0).1
+theorem firstUnused_not_mem (l : List Nat) : firstUnused l ∉ l :=
+  (firstUnusedFrom_spec l.length l 0 (Nat.le_refl _)).1
 
 end NQ.Exec
